@@ -189,12 +189,19 @@ func sameMemValue(a, b ssa.Value) bool {
 		return true
 	}
 	fn := la.Parent()
+	pr := progFor(fn)
 	isStore := func(in ssa.Instruction) bool {
 		if st, ok := in.(*ssa.Store); ok {
 			t2, f2, ok := fieldOf(st.Addr)
 			return ok && t2 == tn && f2 == fld
 		}
-		// calls may write the field too: conservatively only in-repo calls that store that field
+		// a call whose callees (transitively, call graph) store that field
+		if ci, ok := in.(ssa.CallInstruction); ok && pr != nil {
+			if _, isDefer := in.(*ssa.Defer); isDefer {
+				return false // runs at return, after every load
+			}
+			return pr.callMayWriteField(ci, tn, fld)
+		}
 		return false
 	}
 	// a store reachable from a (without passing b) from which b is reachable?
@@ -204,12 +211,16 @@ func sameMemValue(a, b ssa.Value) bool {
 			stores = append(stores, in)
 		}
 	})
+	// a store s with a path  a → … → s → … → b  on which a is not executed
+	// again (b itself may be: in a loop the store can follow an earlier
+	// execution of b and precede the next one)
+	isA := func(in ssa.Instruction) bool { return in == ssa.Instruction(la) }
 	for _, s := range stores {
-		r1 := pathAvoiding(fn, la, func(in ssa.Instruction) bool { return in == s }, func(in ssa.Instruction) bool { return in == ssa.Instruction(lb) })
+		r1 := pathAvoiding(fn, la, func(in ssa.Instruction) bool { return in == s }, isA)
 		if r1 == nil {
 			continue
 		}
-		r2 := pathAvoiding(fn, s, func(in ssa.Instruction) bool { return in == ssa.Instruction(lb) }, nil)
+		r2 := pathAvoiding(fn, s, func(in ssa.Instruction) bool { return in == ssa.Instruction(lb) }, isA)
 		if r2 != nil {
 			return false
 		}
